@@ -19,7 +19,7 @@ use std::sync::OnceLock;
 use std::time::Duration;
 
 pub fn suites() -> Vec<Box<dyn Suite>> {
-    vec![Box::new(Api)]
+    vec![Box::new(Api), Box::new(Csv)]
 }
 
 pub struct Api;
@@ -531,7 +531,7 @@ fn kill_worker(mut w: Worker) {
     }
 }
 
-fn run_in_child(input: &Sx) -> Vec<Outcome> {
+fn run_in_child(suite: &str, input: &Sx) -> Vec<Outcome> {
     use std::io::Write;
     cleanup_stale_scratch();
     let base = std::path::Path::new("/verif/.cache/scratch");
@@ -542,7 +542,7 @@ fn run_in_child(input: &Sx) -> Vec<Outcome> {
     let mut w = guard.take().unwrap_or_else(spawn_worker);
     let mut outs = vec![];
     let mut verdict = "died";
-    if writeln!(w.stdin, "{}", path.display()).and_then(|_| w.stdin.flush()).is_ok() {
+    if writeln!(w.stdin, "{}\t{}", suite, path.display()).and_then(|_| w.stdin.flush()).is_ok() {
         let t0 = std::time::Instant::now();
         loop {
             match w.lines.recv_timeout(Duration::from_millis(200)) {
@@ -599,20 +599,24 @@ fn run_in_child(input: &Sx) -> Vec<Outcome> {
 }
 
 /// worker side: case file paths on stdin, outcomes and an @@END line on stdout
-fn worker_loop(suite: &Api) {
+fn worker_loop() {
     use std::io::{BufRead, Write};
     let stdin = std::io::stdin();
     for line in stdin.lock().lines() {
-        let path = match line {
+        let line = match line {
             Ok(l) => l,
             Err(_) => break,
+        };
+        let (suite_name, path) = match line.split_once('\t') {
+            Some((a, b)) => (a.to_string(), b.to_string()),
+            None => break,
         };
         let text = match std::fs::read_to_string(path.trim()) {
             Ok(t) => t,
             Err(_) => break,
         };
         let inp = Sx::parse(text.trim()).expect("case file syntax");
-        let outs = suite.run(&inp);
+        let outs = if suite_name == "c01_csv" { Csv.run(&inp) } else { Api.run(&inp) };
         let tainted = outs.iter().any(|o| match &o.signature {
             Some(s) => s.starts_with("api-panic") || s.starts_with("api-hang") || s.starts_with("api-error") || s.starts_with("api-background"),
             None => false,
@@ -620,7 +624,7 @@ fn worker_loop(suite: &Api) {
         let stdout = std::io::stdout();
         let mut out = stdout.lock();
         for o in &outs {
-            lvharness::suite::emit(&mut out, "c01_api", "replay", &inp, o);
+            lvharness::suite::emit(&mut out, &suite_name, "replay", &inp, o);
         }
         let _ = writeln!(out, "@@END {}", if tainted { "tainted" } else { "clean" });
         let _ = out.flush();
@@ -767,7 +771,7 @@ impl Suite for Api {
 
     fn generate(&self, seed: u64, tier: &str) -> Vec<Case> {
         let mut r0 = Rng::new(seed ^ 0xA91_C01);
-        let n_cases = if tier == "thorough" { 5_000 } else { 340 };
+        let n_cases = if tier == "thorough" { 1_600 } else { 240 };
         let mut cases = vec![];
         for i in 0..n_cases {
             let mut r = r0.fork(i as u64);
@@ -842,10 +846,10 @@ impl Suite for Api {
         // panicked keeps background threads that panic later (poisoned locks) and would be
         // attributed to the next case.
         if std::env::var("LV_COL_CHILD").is_err() {
-            return run_in_child(input);
+            return run_in_child("c01_api", input);
         }
         if matches!(input, Sx::L(l) if l.len() == 1 && matches!(&l[0], Sx::A(a) if a == "worker")) {
-            worker_loop(self);
+            worker_loop();
             std::process::exit(0);
         }
         install_panic_hook();
@@ -983,4 +987,340 @@ impl Suite for Api {
         }
         outs
     }
+}
+
+
+// ================================================================================================
+// CSV ingestion: LocustDB::load_csv (oracle only: the CSV type inference is not modelled)
+// ================================================================================================
+
+pub struct Csv;
+
+fn csv_field(c: &Cell) -> String {
+    match c {
+        Cell::Null => String::new(),
+        Cell::Int(i) => i.to_string(),
+        // Debug always prints a fraction or an exponent, so the cell is not read as an integer
+        Cell::Float(b) => format!("{:?}", f64::from_bits(*b)),
+        Cell::Str(s) => {
+            let s = String::from_utf8(s.clone()).unwrap();
+            if s.contains(',') || s.contains('"') || s.contains('\n') || s.starts_with(' ') || s.ends_with(' ') {
+                format!("\"{}\"", s.replace('"', "\"\""))
+            } else {
+                s
+            }
+        }
+    }
+}
+
+/// what load_csv must yield for one column of one partition_size-row batch: the loader infers one
+/// type per batch and column (string > float > int); empty cells are NULL (allow_nulls_all_columns)
+fn csv_expected_batch(cells: &[Cell]) -> Vec<Cell> {
+    let has_s = cells.iter().any(|c| matches!(c, Cell::Str(_)));
+    let has_f = cells.iter().any(|c| matches!(c, Cell::Float(_)));
+    cells
+        .iter()
+        .map(|c| match c {
+            Cell::Int(i) if has_s => Cell::Str(i.to_string().into_bytes()),
+            Cell::Float(b) if has_s => Cell::Str(format!("{:?}", f64::from_bits(*b)).into_bytes()),
+            Cell::Int(i) if has_f => Cell::Float((*i as f64).to_bits()),
+            other => other.clone(),
+        })
+        .collect()
+}
+
+impl Suite for Csv {
+    fn name(&self) -> &'static str {
+        "c01_csv"
+    }
+
+    fn generate(&self, seed: u64, tier: &str) -> Vec<Case> {
+        let mut r0 = Rng::new(seed ^ 0xC5F_C01);
+        let n_cases = if tier == "thorough" { 500 } else { 70 };
+        let mut cases = vec![];
+        for i in 0..n_cases {
+            let mut r = r0.fork(i as u64);
+            let cfg = Cfg { disk: r.chance(1, 3), mem_lz4: r.chance(1, 2), batch_size: *r.pick(&[1024usize, 1024, 8, 64]) };
+            let rows = match r.below(6) {
+                0 => *r.pick(&[1usize, 7, 8, 9, 63, 64, 65]),
+                1 => r.usize(100, 300),
+                _ => r.usize(2, 50),
+            };
+            let partition_size = match r.below(3) {
+                0 => rows + 5,
+                1 => *r.pick(&[7usize, 8, 16, 64]),
+                _ => (rows / 2).max(1),
+            };
+            let ncols = r.usize(1, 4);
+            let mut cols = vec![];
+            let mut labels = vec![];
+            for k in 0..ncols {
+                let ty = *r.pick(&["int", "int", "float", "str", "int+float"]);
+                let allow_nulls = r.chance(1, 2);
+                let (l, mut cells) = match ty {
+                    "int+float" => {
+                        let (l, mut a) = gen_column_cells(&mut r, "int", rows, allow_nulls);
+                        let (_, b) = gen_column_cells(&mut r, "float", rows, allow_nulls);
+                        for (i, c) in b.into_iter().enumerate() {
+                            if i % 4 == 2 {
+                                a[i] = c;
+                            }
+                        }
+                        (format!("int+float:{}", l), a)
+                    }
+                    "str" => {
+                        // text that is neither empty nor a number
+                        let (l, cells) = gen_column_cells(&mut r, "str", rows, allow_nulls);
+                        let cells = cells
+                            .into_iter()
+                            .map(|c| match c {
+                                Cell::Str(s) => {
+                                    let mut t = String::from_utf8(s).unwrap().replace('\n', " ").replace('\r', " ");
+                                    if t.is_empty() || t.parse::<f64>().is_ok() || t.trim() != t {
+                                        t = format!("s{}", t.trim());
+                                    }
+                                    Cell::Str(t.into_bytes())
+                                }
+                                o => o,
+                            })
+                            .collect();
+                        (l, cells)
+                    }
+                    t => gen_column_cells(&mut r, t, rows, allow_nulls),
+                };
+                // NaN payloads and signs do not survive a text representation
+                for c in cells.iter_mut() {
+                    if let Cell::Float(b) = c {
+                        if f64::from_bits(*b).is_nan() {
+                            *c = Cell::Float((1.5f64).to_bits());
+                        }
+                    }
+                }
+                labels.push(l.split(':').next().unwrap_or("").to_string());
+                cols.push(Sx::l(vec![Sx::a(format!("c{}", k)), cells_sx(&cells)]));
+            }
+            // A batch in which every cell is NULL becomes a partition of size 0, which plan_compaction
+            // merges whatever the combine factor is; compaction is C07's subject, keep it out of here.
+            {
+                let mut colsv: Vec<(String, Vec<Cell>)> = cols.iter().map(|c| (c.items()[0].atom().to_string(), c.items()[1].items().iter().map(Cell::parse).collect())).collect();
+                let mut start = 0;
+                while start < rows {
+                    let end = (start + partition_size).min(rows);
+                    if colsv.iter().all(|(_, c)| c[start..end].iter().all(|x| *x == Cell::Null)) {
+                        let filler = colsv[0].1.iter().find(|x| **x != Cell::Null).cloned().unwrap_or(Cell::Int(1));
+                        colsv[0].1[start] = filler;
+                    }
+                    start = end;
+                }
+                cols = colsv.iter().map(|(n, c)| Sx::l(vec![Sx::a(n), cells_sx(c)])).collect();
+            }
+            // keep tables of the known-finding classes at a small share
+            let tag = {
+                let colsv: Vec<(String, Vec<Cell>)> = cols.iter().map(|c| (c.items()[0].atom().to_string(), c.items()[1].items().iter().map(Cell::parse).collect())).collect();
+                csv_table_tag(&cfg, partition_size, &colsv)
+            };
+            if tag != "-" && !r.chance(1, 4) {
+                continue;
+            }
+            labels.sort();
+            labels.dedup();
+            cases.push(Case {
+                class: format!("{}csv-{}/{}", if tag != "-" { "known-shape:" } else { "" }, if cfg.disk { "disk" } else { "mem" }, labels.join("+")),
+                input: Sx::l(vec![cfg_sx(&cfg), Sx::int(partition_size), Sx::L(cols)]),
+            });
+        }
+        cases
+    }
+
+    fn run(&self, input: &Sx) -> Vec<Outcome> {
+        if std::env::var("LV_COL_CHILD").is_err() {
+            return run_in_child("c01_csv", input);
+        }
+        install_panic_hook();
+        let _ = take_panics();
+        let it = input.items();
+        let cfg = parse_cfg(&it[0]);
+        let partition_size = it[1].as_usize();
+        let cols: Vec<(String, Vec<Cell>)> = it[2]
+            .items()
+            .iter()
+            .map(|c| (c.items()[0].atom().to_string(), c.items()[1].items().iter().map(Cell::parse).collect()))
+            .collect();
+        let rows = cols[0].1.len();
+        let table_tag = csv_table_tag(&cfg, partition_size, &cols);
+        let mut outs = vec![];
+
+        let mut text = cols.iter().map(|(n, _)| n.clone()).collect::<Vec<_>>().join(",");
+        text.push('\n');
+        for r in 0..rows {
+            let line = cols.iter().map(|(_, c)| csv_field(&c[r])).collect::<Vec<_>>().join(",");
+            // a blank line is not a record: a single empty field has to be quoted
+            text.push_str(if line.is_empty() { "\"\"" } else { &line });
+            text.push('\n');
+        }
+        let mut exp: BTreeMap<String, Vec<Cell>> = BTreeMap::new();
+        for (n, cells) in &cols {
+            let mut v = vec![];
+            for chunk in cells.chunks(partition_size) {
+                v.extend(csv_expected_batch(chunk));
+            }
+            exp.insert(n.clone(), v);
+        }
+
+        let cfg2 = cfg.clone();
+        let colnames: Vec<String> = cols.iter().map(|(n, _)| n.clone()).collect();
+        let colnames2 = colnames.clone();
+        let (tx, rx) = std::sync::mpsc::channel();
+        let dir_slot: std::sync::Arc<std::sync::Mutex<Vec<std::path::PathBuf>>> = Default::default();
+        let dir_slot2 = dir_slot.clone();
+        std::thread::spawn(move || {
+            let r = std::panic::catch_unwind(move || -> Result<Selected, Fail> {
+                let base = std::path::Path::new("/verif/.cache/scratch");
+                let _ = std::fs::create_dir_all(base);
+                let file = base.join(format!("col-{}-{}.csv", std::process::id(), DB_COUNTER.fetch_add(1, Ordering::SeqCst)));
+                std::fs::write(&file, &text).map_err(|e| Fail::Error(format!("write csv: {}", e)))?;
+                dir_slot2.lock().unwrap().push(file.clone());
+                let holder = open_db(&cfg2);
+                if let Some(d) = &holder.dir {
+                    dir_slot2.lock().unwrap().push(d.clone());
+                }
+                let db = holder.db.as_ref().unwrap();
+                let rt = runtime();
+                let opts = locustdb::LoadOptions::new(&file, "t").with_partition_size(partition_size).allow_nulls_all_columns();
+                let fut = db.load_csv(opts);
+                match rt.block_on(async { tokio::time::timeout(Duration::from_secs(30), fut).await }) {
+                    Err(_) => return Err(Fail::Hang("load_csv did not complete within 30 s".into())),
+                    Ok(Err(e)) => return Err(Fail::Error(format!("load_csv: {}", e))),
+                    Ok(Ok(())) => {}
+                }
+                let quoted: Vec<String> = colnames2.iter().map(|c| format!("\"{}\"", c)).collect();
+                let q = format!("SELECT {} FROM t", quoted.join(", "));
+                let mut sel = Selected { rows: BTreeMap::new(), columns: BTreeMap::new() };
+                for rowformat in [true, false] {
+                    let fut = db.run_query(&q, false, rowformat, vec![]);
+                    let out = rt.block_on(async { tokio::time::timeout(Duration::from_secs(6), fut).await });
+                    let out = match out {
+                        Err(_) => return Err(Fail::Hang(format!("query did not complete within 6 s (rowformat={})", rowformat))),
+                        Ok(Err(e)) => return Err(Fail::Error(format!("{:?}", e))),
+                        Ok(Ok(o)) => o,
+                    };
+                    if rowformat {
+                        let rows = out.rows.ok_or_else(|| Fail::Error("row format requested, no rows returned".into()))?;
+                        for (i, c) in out.colnames.iter().enumerate() {
+                            sel.rows.insert(c.clone(), rows.iter().map(|r| value_cell(&r[i])).collect());
+                        }
+                    } else {
+                        for (name, col) in &out.columns {
+                            sel.columns.insert(name.clone(), column_cells(col));
+                        }
+                    }
+                }
+                drop(holder);
+                let _ = std::fs::remove_file(&file);
+                dir_slot2.lock().unwrap().clear();
+                Ok(sel)
+            });
+            let r = match r {
+                Ok(r) => r,
+                Err(p) => Err(Fail::Panic(panic_message(p), last_panic_location())),
+            };
+            let _ = tx.send(r);
+        });
+        let t0 = std::time::Instant::now();
+        let mut panic_seen_at: Option<std::time::Instant> = None;
+        let res = loop {
+            match rx.recv_timeout(Duration::from_millis(50)) {
+                Ok(r) => break r,
+                Err(std::sync::mpsc::RecvTimeoutError::Disconnected) => break Err(Fail::Hang("database thread vanished".into())),
+                Err(std::sync::mpsc::RecvTimeoutError::Timeout) => {
+                    if panic_seen_at.is_none() && panics_seen() > 0 {
+                        panic_seen_at = Some(std::time::Instant::now());
+                    }
+                    let give_up = match panic_seen_at {
+                        Some(t) => t.elapsed() > Duration::from_secs(2),
+                        None => t0.elapsed() > Duration::from_secs(60),
+                    };
+                    if give_up {
+                        break Err(Fail::Hang("the call did not return after a panic in a database thread".into()));
+                    }
+                }
+            }
+        };
+        for p in dir_slot.lock().unwrap().drain(..) {
+            let _ = std::fs::remove_dir_all(&p);
+            let _ = std::fs::remove_file(&p);
+        }
+        let sel = match res {
+            Ok(s) => s,
+            Err(f) => {
+                let (kind, msg, file) = match f {
+                    Fail::Panic(m, f) => ("panic", m, f),
+                    Fail::Error(m) => ("error", m, String::new()),
+                    Fail::Hang(m) => ("hang", m, String::new()),
+                };
+                let panics = take_panics();
+                let (file, msg) = match panics.first() {
+                    Some((f, m)) if kind != "panic" => (f.clone(), format!("{} [caller saw {}: {}]", m, kind, msg)),
+                    _ => (file, msg),
+                };
+                let kind = if panics.is_empty() { kind } else { "panic" };
+                outs.push(Outcome {
+                    model: None,
+                    model_input: None,
+                    impl_out: Some(Sx::l(vec![Sx::a(kind), Sx::a(skeleton(&msg))])),
+                    oracle: Some(format!("load_csv + SELECT failed ({} {}): {}", kind, file, msg)),
+                    signature: Some(format!("api-{}:{}:{}:{}", kind, file, skeleton(msg.split(" [caller saw").next().unwrap_or("")), table_tag)),
+                    nontrivial: true,
+                });
+                return outs;
+            }
+        };
+        for c in &colnames {
+            let e = &exp[c];
+            let nt = nontrivial(e);
+            for (fmt, got) in [("rows", sel.rows.get(c)), ("columns", sel.columns.get(c))] {
+                let got = match got {
+                    Some(g) => g.clone(),
+                    None => {
+                        outs.push(Outcome {
+                            model: None,
+                            model_input: None,
+                            impl_out: Some(Sx::a("column-missing")),
+                            oracle: Some(format!("column {} is missing from the {} output", c, fmt)),
+                            signature: Some(format!("api-column-missing:{}", fmt)),
+                            nontrivial: nt,
+                        });
+                        continue;
+                    }
+                };
+                let diff = first_diff(e, &got);
+                let sig = diff.as_ref().map(|_| format!("csv-{}:{}:{}", diff_signature(e, &got), fmt, table_tag));
+                outs.push(Outcome {
+                    model: None,
+                    model_input: None,
+                    impl_out: Some(cells_sx(&got)),
+                    oracle: diff.map(|d| format!("column {} ({} format) after load_csv: {}", c, fmt, d)),
+                    signature: sig,
+                    nontrivial: nt,
+                });
+            }
+        }
+        outs
+    }
+}
+
+/// known-finding shapes of a CSV table: every partition_size-row batch is one table buffer
+fn csv_table_tag(cfg: &Cfg, partition_size: usize, cols: &[(String, Vec<Cell>)]) -> String {
+    let mut tags = std::collections::BTreeSet::new();
+    for (_, cells) in cols {
+        for chunk in cells.chunks(partition_size) {
+            let ops = cells_to_ops(&csv_expected_batch(chunk));
+            for t in shape_tag(&shape_of(&ops), cfg.batch_size).split('+') {
+                if t != "-" {
+                    tags.insert(t.to_string());
+                }
+            }
+        }
+    }
+    if tags.is_empty() { "-".into() } else { tags.into_iter().collect::<Vec<_>>().join("+") }
 }
